@@ -633,3 +633,13 @@ M("wf3-310-finallyblock-keyword", "C01", L310, "                FrameDetails.Fin
 M("wf3-lowlevel-describe-extra-arg", "C08", LL, "            store_to = describe_assignment_target(insns, idx + 1)\n", "            store_to = describe_assignment_target(insns, idx + 1, insn)\n", ["WF-3", "OPC-3"], accept_analysis_error=True)
 M("wf3-extract-missing-arg", "C05", EX, "    it = extract_iter(stackitem, errors)\n", "    it = extract_iter(stackitem)\n", ["WF-3"], accept_analysis_error=True)
 
+# ---------------------------------------------------------------- OPC-6 (3.9 / 3.10 backward walk: code the 3.12 suite never enters)
+M("opc6-no-step-back", "C02", LL, "        # Backtrack from CALL_FUNCTION to the preceding POP_BLOCK\n        offs -= 8\n", "        # Backtrack from CALL_FUNCTION to the preceding POP_BLOCK\n", "OPC-6")
+M("opc6-extended-arg-skip-inverted", "C02", LL, "        offs -= 8\n        while offs and code[offs] == op[\"EXTENDED_ARG\"]:", "        offs -= 8\n        while offs and code[offs] != op[\"EXTENDED_ARG\"]:", "OPC-6")
+M("opc6-rot-two-skip-step", "C02", LL, "        if offs and code[offs] == op[\"ROT_TWO\"]:\n            offs -= 2\n    else:", "        if offs and code[offs] == op[\"ROT_TWO\"]:\n            offs -= 3\n    else:", "OPC-6")
+
+# ---------------------------------------------------------------- OPC-13
+M("opc13-310-test-inverted", "C02", LL, "        if code[offs] == op[\"WITH_EXCEPT_START\"]:\n            return ExitingContext(is_async=is_async, cleanup_offset=offs)\n        if offs < 8", "        if code[offs] != op[\"WITH_EXCEPT_START\"]:\n            return ExitingContext(is_async=is_async, cleanup_offset=offs)\n        if offs < 8", "OPC-13")
+M("opc13-310-no-return", "C02", LL, "        if code[offs] == op[\"WITH_EXCEPT_START\"]:\n            return ExitingContext(is_async=is_async, cleanup_offset=offs)\n        if offs < 8", "        if code[offs] == op[\"WITH_EXCEPT_START\"]:\n            pass\n        if offs < 8", "OPC-13")
+M("opc13-311-no-push-exc-info-step", "C02", LL, "            offs -= 2  # back up to PUSH_EXC_INFO\n", "", "OPC-13")
+
